@@ -100,15 +100,34 @@ fn c11_parse_u64_len_0_to_4() {
 }
 
 #[kani::proof]
-#[kani::unwind(24)]
-fn c11_parse_u64_len_20() {
-    parse_instance::<20>();
+#[kani::unwind(12)]
+fn c11_parse_u64_len_5_to_8() {
+    parse_instance::<5>();
+    parse_instance::<6>();
+    parse_instance::<7>();
+    parse_instance::<8>();
 }
 
+/// the overflow boundary: u64::MAX = 18446744073709551615 has 20 digits.  All 20-character strings that share its first 16 digits
+/// and end in four arbitrary decimal digits (10^4 strings on both sides of the boundary); the fully symbolic 20-digit instance does
+/// not finish (25 min, symbolic x10 chain), so the prefix is concrete.
 #[kani::proof]
 #[kani::unwind(24)]
-fn c11_parse_u64_len_21() {
-    parse_instance::<21>();
+fn c11_parse_u64_overflow_boundary() {
+    let mut raw: [u8; 20] = *b"18446744073709550000";
+    let tail: [u8; 4] = kani::any();
+    let mut i = 0;
+    while i < 4 {
+        kani::assume(tail[i] >= b'0' && tail[i] <= b'9');
+        raw[16 + i] = tail[i];
+        i += 1;
+    }
+    let s = unsafe { std::str::from_utf8_unchecked(&raw) };
+    let got = s.parse::<u64>().ok();
+    let want = parse_ref(&raw);
+    kani::cover!(got.is_some(), "a number at most u64::MAX parses");
+    kani::cover!(got.is_none(), "overflow is rejected");
+    assert!(got == want, "str::parse::<u64> == decimal grammar");
 }
 
 /// C11: try_parse_timeout on a one-entry header map is out of Kani's reach (hashbrown);
